@@ -15,6 +15,11 @@ from tcv.core import HarnessError, Result, Violation, digest, jdump
 
 INMEM = ('inmemory', 'inmemory_empty')
 PERSISTED = lambda kind: kind not in INMEM  # noqa
+# data kinds whose VALUE is a reference to the storage location (a directory path): what a holder of the value sees through
+# it is whatever the location holds now - replaced by a later forced run from another chain object, or gone after a
+# delete_data issued elsewhere. Not a property of forcing / caching; the model follows the store for them.
+REFKIND = ('dir', 'dir0', 'continues', 'dirlink')
+GONE = 'gone'
 
 
 # ------------------------------------------------------------------------------------------------ reference
@@ -79,6 +84,8 @@ class StoreModel:
         ti = m.tasks[fn]
         kind = ti.decl.get('data', 'json')
         if o in s['mem']:
+            if kind in REFKIND:
+                return self.stored.get(o, GONE)
             return s['mem'][o]
         if PERSISTED(kind) and o in self.stored and o not in s['forced']:
             s['mem'][o] = self.stored[o]
@@ -233,8 +240,12 @@ class Exec:
             try:
                 v = t.value
                 kindd = self.model.slots[slot]['model'].tasks[fn].decl.get('data', 'json')
-                p = self.world.decode(v, kindd)
-                obs.update(term=p['term'], gen=p['gen'], error=None)
+                if exp.get('gen') == GONE:
+                    # a directory value held in memory whose directory was deleted through another chain object
+                    obs.update(term=exp['term'], gen=GONE, error=None)
+                else:
+                    p = self.world.decode(v, kindd)
+                    obs.update(term=p['term'], gen=p['gen'], error=None)
             except worlds.Fault as e:
                 obs.update(term=None, gen=None, error=f'Fault: {e}', fault=True)
             except Exception as e:  # noqa
